@@ -782,3 +782,23 @@ Definition action_eqb (a b : action) : bool :=
 
 Definition res_doc_eqb (r : res doc) (d : doc) : bool :=
   match r with Ok d' => doc_eqb d' d | Err _ => false end.
+
+(* ------------------------------------------------------------------------------------------------ *)
+(* C31: the bookkeeping of `stored` and `direct` alone, for arbitrary interleavings (also the ones of bundles
+   that fail): every way the engine changes the two lists is one of these four *)
+Inductive levent :=
+| LAppend (a : action) (lvl : Z)        (* _do_doc_action: stored.append(a); direct.append(lvl == DIRECT_ACTION) *)
+| LCreate (a : action)                  (* InitNewDoc: stored.extend(creation); direct += [True] * n *)
+| LFlush (acts : list action)           (* flush_calc_changes(_for_column): direct += [False] * count *)
+| LTrim (n : Z).                        (* _undo_to_checkpoint: del stored[n:]; del direct[n:] *)
+
+Definition lstep (e : levent) (p : list action * list bool) : list action * list bool :=
+  match e with
+  | LAppend a lvl => (fst p ++ [a], snd p ++ [lvl =? 0])
+  | LCreate a => (fst p ++ [a], snd p ++ [true])
+  | LFlush acts => (fst p ++ acts, snd p ++ repeat false (length acts))
+  | LTrim n => (firstn (Z.to_nat n) (fst p), firstn (Z.to_nat n) (snd p))
+  end.
+
+Definition lrun (es : list levent) (p : list action * list bool) : list action * list bool :=
+  fold_left (fun q e => lstep e q) es p.
